@@ -19,9 +19,9 @@ PROP = dict(
                "and 0..100; monitor: off->on iff level >= ActivationLevel, on->off only if level < DeactivationLevel and MinimumActivationDuration elapsed since the level was last at or above it; "
                "never/always pin the flag at every recalculation. Each generated transition is executed on the real StressRelief (Recalc, UpdateFromConfig and the pubsub callback called directly, "
                "metrics readings inverted through the sqrt/sigmoid weightings) and Stressed() plus the stress_level gauge must equal the model's.",
-    level_note="Exhaustive only within the bound (1 peer x full state machine with reloads; 2 peers x aggregation in monitor mode; levels from {0,40,75,100}; "
+    level_note="Exhaustive only within the bound (1 peer x full state machine with reloads; 2 peers x aggregation in monitor mode; levels from {0,40,75,100}, thresholds 76/40 and 100/76 placed on reachable levels; "
                "timeout 1-2 ticks; MinimumActivationDuration 0-2 ticks). Boundary conventions the statement leaves open (hold ends at now > or >= deadline; a report aged exactly the timeout) "
-               "are alternatives. Readings adopted: the node's own report takes part in the RMS as in the code; ActivationLevel > DeactivationLevel as the config documents; "
+               "and, for a reload that falls into a hold, whether the stored deadline or the last at-or-above instant with the new duration governs, are alternatives (the code must conform to one combination throughout). Readings adopted: the node's own report takes part in the RMS as in the code; ActivationLevel > DeactivationLevel as the config documents; "
                "never/always are judged after each recalculation (a reload takes effect at the next Recalc). The background goroutine/ticker and the publishing side are not driven. "
                "Known deviation hold-not-rearmed (stale stayOnUntil after always->monitor or after MinimumActivationDuration was raised) is reported as KNOWN-FINDING.",
     assumptions=["clockwork.FakeClock is faithful", "peer levels within 0..100", "ActivationLevel > DeactivationLevel",
